@@ -1,6 +1,1178 @@
-//! C38 — not implemented yet.
-use mc_core::Ctx;
+//! C38 — static resource movement bounds are sound.
+//!
+//! Statement: whenever the static analysis of a manifest reports bounds on what each account will receive or
+//! send, every successful execution of that manifest deposits and withdraws amounts within those bounds.
+//!
+//! Shape: programs x ledger states. Every instruction sequence of bounded length over a collision-forcing
+//! alphabet (see `Op`), closed by "return live buckets; deposit entire worktop to A", is built with the V2
+//! `ManifestBuilder`, analysed by the real `StaticManifestInterpreter` + `StaticResourceMovementsVisitor`
+//! (`resolve_account_changes`), and - when the analyser returns bounds - executed by the real engine on each
+//! ledger state. For every SUCCESSFUL execution the harness derives what each account really withdrew and
+//! deposited (module `actual`) and judges the reported claims against it (module `judge`).
+//!
+//! What "net" means in the analyser's output (types.rs, `AggregatedBalanceChange`): per account and resource
+//! it keeps the TOTAL withdrawn and the TOTAL deposited separately (numeric bounds are never cancelled against
+//! each other); only *known non-fungible ids* that are both withdrawn and deposited are cancelled, and each
+//! cancellation lowers both totals by one. The oracle therefore demands, per account X and resource R:
+//!   fungible:  reported withdrawn total == gross withdrawn;  gross deposited within the reported deposit bounds;
+//!   non-fungible: there is a number c of cancelled ids, 0 <= c <= |withdrawn ids ∩ deposited ids| (multisets), with
+//!       reported withdrawn total == gross withdrawn - c and (gross deposited - c) within the deposit bounds;
+//!       reported known withdrawn ids were withdrawn and are not held after the transaction;
+//!       reported certain deposited ids were deposited and are held after the transaction;
+//!       ids that are deposited and never withdrawn, and ids newly held afterwards, lie in a reported allow-list;
+//!   a resource with no reported bound must not be deposited unless `unspecified_resources` is MayBePresent,
+//!   and must not be withdrawn at all.
+//! `NetWithdraws` has no public accessor, so the withdraw side is judged by membership: the set of claims that
+//! are consistent with the execution is enumerated (it is tiny) and the reported value must equal one of them.
+//!
+//! Out of the statement (counted as classes only): sequences the static validator rejects, analyser errors,
+//! failed / rejected executions.
+use mc_core::{par_range, Ctx, Level, Local};
+use mc_ledger::*;
+use radix_engine::blueprints::account::{
+    AccountResourceVaultEntryPayload, DepositEvent as AccountDepositEvent, RejectedDepositEvent as AccountRejectedDepositEvent,
+    WithdrawEvent as AccountWithdrawEvent,
+};
+use radix_engine::system::system_db_reader::SystemDatabaseReader;
+use radix_engine::system::system_substates::KeyValueEntrySubstate;
+use radix_transactions::manifest::static_resource_movements::*;
+use radix_transactions::manifest::*;
+use serde_json::{json, Map, Value};
+use std::collections::{BTreeMap, BTreeSet, HashSet};
+use std::sync::atomic::{AtomicU64, Ordering};
+use std::sync::Mutex;
 
-pub fn run(_ctx: Ctx) -> ! {
-    mc_core::machinery_error("C38: not implemented")
+// ------------------------------------------------------------------------------------------------
+// alphabet
+// ------------------------------------------------------------------------------------------------
+
+#[derive(Clone, Copy, Debug, PartialEq, Eq, PartialOrd, Ord, Hash)]
+pub enum Op {
+    /// withdraw(A, F, 1)
+    W1,
+    /// withdraw(A, F, 2)
+    W2,
+    /// withdraw_non_fungibles(A, NF, {#1})
+    WN1,
+    /// withdraw_non_fungibles(A, NF, {#1,#2})
+    WN12,
+    /// take_from_worktop(F, 1) -> new bucket
+    TakeF1,
+    /// take_all_from_worktop(F) -> new bucket
+    TakeAllF,
+    /// take_all_from_worktop(NF) -> new bucket
+    TakeAllNF,
+    /// take_non_fungibles_from_worktop(NF, {#1}) -> new bucket
+    TakeNF1,
+    /// B.deposit(newest live bucket)
+    DepB,
+    /// B.deposit_batch(entire worktop)
+    DepBatchB,
+    /// B.try_deposit_or_abort(newest live bucket)
+    TryAbortB,
+    /// B.try_deposit_or_refund(newest live bucket)
+    TryRefundB,
+    /// B.try_deposit_batch_or_refund(entire worktop)
+    TryRefundAllB,
+    /// assert_worktop_contains(F, 1)
+    AssertF1,
+    /// assert_worktop_contains_any(F)
+    AssertAnyF,
+    /// assert_worktop_contains_non_fungibles(NF, {#1})
+    AssertNF1,
+    /// burn(newest live bucket)
+    Burn,
+    /// faucet.free() - opaque call returning XRD
+    Faucet,
+    /// pool.contribute(newest live bucket) - opaque return (pool units)
+    Contribute,
+    /// withdraw(A, PU, 1); take_all(PU); pool.redeem(bucket) - opaque return (F)
+    Redeem,
+    /// as Redeem, with ASSERT_NEXT_CALL_RETURNS_ONLY {F: exactly 1} in front of the redeem call
+    RedeemA,
+    /// ASSERT_NEXT_CALL_RETURNS_ONLY {F: between 1 and 2}
+    NextOnlyF,
+    /// ASSERT_NEXT_CALL_RETURNS_ONLY {XRD: at least 1}
+    NextOnlyX,
+    /// ASSERT_NEXT_CALL_RETURNS_INCLUDE {F: at least 1}
+    NextInclF,
+    /// ASSERT_WORKTOP_RESOURCES_ONLY {F: exactly 1}
+    WtOnlyF,
+    /// ASSERT_WORKTOP_RESOURCES_INCLUDE {F: between 1 and 2}
+    WtInclF,
+    /// ASSERT_WORKTOP_RESOURCES_INCLUDE {NF: non-zero, at most 2, ids within {#1,#2}}
+    WtInclNF,
+    /// ASSERT_BUCKET_CONTENTS(newest live bucket, General{1..=2, any ids})
+    BucketC,
+    /// ASSERT_WORKTOP_RESOURCES_INCLUDE {F: General{lower 0, unbounded, allow-list {}}} - the constraint of the
+    /// known C37 finding (declared valid for fungible use; `normalize` clamps its upper bound to 0)
+    WtInclEmptyAllow,
+}
+
+pub const FULL: &[Op] = &[
+    Op::W1,
+    Op::W2,
+    Op::WN1,
+    Op::WN12,
+    Op::TakeF1,
+    Op::TakeAllF,
+    Op::TakeAllNF,
+    Op::TakeNF1,
+    Op::DepB,
+    Op::DepBatchB,
+    Op::TryAbortB,
+    Op::TryRefundB,
+    Op::TryRefundAllB,
+    Op::AssertF1,
+    Op::AssertAnyF,
+    Op::AssertNF1,
+    Op::Burn,
+    Op::Faucet,
+    Op::Contribute,
+    Op::Redeem,
+    Op::RedeemA,
+    Op::NextOnlyF,
+    Op::NextOnlyX,
+    Op::NextInclF,
+    Op::WtOnlyF,
+    Op::WtInclF,
+    Op::WtInclNF,
+    Op::BucketC,
+    Op::WtInclEmptyAllow,
+];
+
+/// Reduced alphabet for the deepest layer of each tier.
+pub const CORE: &[Op] = &[
+    Op::W2,
+    Op::WN12,
+    Op::TakeF1,
+    Op::TakeAllF,
+    Op::TakeNF1,
+    Op::DepB,
+    Op::DepBatchB,
+    Op::TryRefundB,
+    Op::TryRefundAllB,
+    Op::Burn,
+    Op::Redeem,
+    Op::NextOnlyF,
+    Op::WtInclF,
+];
+
+impl Op {
+    fn parse(s: &str) -> Option<Op> {
+        FULL.iter().copied().find(|o| format!("{o:?}") == s)
+    }
+    /// number of live buckets needed / whether the newest one is consumed / whether one is created
+    fn needs_bucket(&self) -> bool {
+        matches!(self, Op::DepB | Op::TryAbortB | Op::TryRefundB | Op::Burn | Op::Contribute | Op::BucketC)
+    }
+    fn consumes_bucket(&self) -> bool {
+        self.needs_bucket() && !matches!(self, Op::BucketC)
+    }
+    fn creates_bucket(&self) -> bool {
+        matches!(self, Op::TakeF1 | Op::TakeAllF | Op::TakeAllNF | Op::TakeNF1)
+    }
+    fn is_refundable_deposit_to_b(&self) -> bool {
+        matches!(self, Op::TryRefundB | Op::TryRefundAllB)
+    }
+}
+
+/// All sequences of length exactly `n` over `alphabet` in which every bucket operation has a live bucket
+/// (anything else is not a manifest the builder can express). Length-lexicographic order of `alphabet`.
+fn gen_exact(alphabet: &[Op], n: usize, out: &mut Vec<Vec<Op>>, skipped: &mut u64) {
+    fn rec(alphabet: &[Op], n: usize, cur: &mut Vec<Op>, live: usize, out: &mut Vec<Vec<Op>>, skipped: &mut u64) {
+        if cur.len() == n {
+            out.push(cur.clone());
+            return;
+        }
+        for &op in alphabet {
+            if op.needs_bucket() && live == 0 {
+                // every completion of this prefix is unbuildable
+                *skipped += (alphabet.len() as u64).pow((n - cur.len() - 1) as u32);
+                continue;
+            }
+            let mut l = live;
+            if op.consumes_bucket() {
+                l -= 1;
+            }
+            if op.creates_bucket() {
+                l += 1;
+            }
+            cur.push(op);
+            rec(alphabet, n, cur, l, out, skipped);
+            cur.pop();
+        }
+    }
+    rec(alphabet, n, &mut Vec::new(), 0, out, skipped);
+}
+
+// ------------------------------------------------------------------------------------------------
+// world: resources and the ledger states
+// ------------------------------------------------------------------------------------------------
+
+#[derive(Clone, Debug)]
+pub struct Res {
+    pub f: ResourceAddress,
+    pub nf: ResourceAddress,
+    pub pool: ComponentAddress,
+    pub pu: ResourceAddress,
+    pub faucet: ComponentAddress,
+}
+
+pub type Holdings = BTreeMap<ResourceAddress, (Decimal, BTreeSet<NonFungibleLocalId>)>;
+
+pub struct LedgerState {
+    pub name: &'static str,
+    pub what: &'static str,
+    pub snap: Snap,
+    pub a: ComponentAddress,
+    pub b: ComponentAddress,
+    /// fee payer; never compared
+    pub c: ComponentAddress,
+    pub proofs: Vec<NonFungibleGlobalId>,
+    pub before_a: Holdings,
+    pub before_b: Holdings,
+}
+
+pub struct Env {
+    pub res: Res,
+    pub states: Vec<LedgerState>,
+}
+
+fn sim_from(snap: &Snap) -> Sim {
+    LedgerSimulatorBuilder::new().without_kernel_trace().build_from_snapshot(snap.clone())
+}
+
+fn id(n: u64) -> NonFungibleLocalId {
+    NonFungibleLocalId::integer(n)
+}
+
+/// What an account holds, read from the database: resource -> (amount, non-fungible ids).
+pub fn holdings(sim: &mut Sim, acct: ComponentAddress) -> Result<Holdings, String> {
+    let mut vaults: Vec<(ResourceAddress, NodeId)> = vec![];
+    {
+        let reader = SystemDatabaseReader::new(sim.substate_db());
+        // an account that was never instantiated has no object info: it holds nothing
+        let Ok(part) = reader.get_partition_of_collection(acct.as_node_id(), ModuleId::Main, AccountCollection::ResourceVaultKeyValue.collection_index())
+        else {
+            return Ok(Holdings::new());
+        };
+        for (k, v) in sim.substate_db().list_map_raw_values(acct.as_node_id(), part, None::<SubstateKey>) {
+            let ra: ResourceAddress = scrypto_decode(&k).map_err(|e| format!("vault key undecodable: {e:?}"))?;
+            let e: KeyValueEntrySubstate<AccountResourceVaultEntryPayload> = scrypto_decode(&v).map_err(|e| format!("vault entry undecodable: {e:?}"))?;
+            if let Some(p) = e.into_value() {
+                let vault = p.fully_update_and_into_latest_version();
+                vaults.push((ra, *vault.0.as_node_id()));
+            }
+        }
+    }
+    let mut out = Holdings::new();
+    for (ra, node) in vaults {
+        if node.is_internal_fungible_vault() {
+            let amt = sim.inspect_fungible_vault(node).ok_or_else(|| format!("fungible vault {node:?} unreadable"))?;
+            out.insert(ra, (amt, BTreeSet::new()));
+        } else {
+            let (amt, it) = sim.inspect_non_fungible_vault(node).ok_or_else(|| format!("non-fungible vault {node:?} unreadable"))?;
+            let ids: BTreeSet<NonFungibleLocalId> = it.collect();
+            out.insert(ra, (amt, ids));
+        }
+    }
+    Ok(out)
+}
+
+fn must_commit(sim: &mut Sim, m: TransactionManifestV1, proofs: Vec<NonFungibleGlobalId>, what: &str) {
+    let r = sim.execute_manifest(m, proofs);
+    if !is_success(&r) {
+        mc_core::machinery_error(&format!("C38 setup step '{what}' failed: {}", failure_text(&r)));
+    }
+}
+
+pub fn build_env() -> Env {
+    let mut sim = new_sim();
+    let w = build_world(&mut sim);
+    let (pk_c, _, c) = sim.new_account(true);
+    let sig_c = NonFungibleGlobalId::from_public_key(&pk_c);
+    let (pool, pu) = sim.create_one_resource_pool(w.f18, rule!(allow_all));
+    // A: 30 F, NF #1 #2 #3, 4 pool units
+    must_commit(
+        &mut sim,
+        ManifestBuilder::new().lock_fee_from_faucet().mint_fungible(w.f18, dec!(24)).try_deposit_entire_worktop_or_abort(w.a.addr, None).build(),
+        vec![],
+        "mint F to A",
+    );
+    must_commit(
+        &mut sim,
+        ManifestBuilder::new()
+            .lock_fee_from_faucet()
+            .withdraw_from_account(w.a.addr, w.f18, dec!(4))
+            .take_all_from_worktop(w.f18, "c")
+            .call_method_with_name_lookup(pool, "contribute", |l| (l.bucket("c"),))
+            .try_deposit_entire_worktop_or_abort(w.a.addr, None)
+            .build(),
+        vec![w.a.sig.clone()],
+        "A contributes 4 F to the pool",
+    );
+    let res = Res { f: w.f18, nf: w.nf, pool, pu, faucet: FAUCET };
+    let base = sim.create_snapshot();
+    let mut states = vec![];
+    let mut mk = |name: &'static str, what: &'static str, sim: &mut Sim, b: ComponentAddress, sig_b: NonFungibleGlobalId| {
+        let before_a = holdings(sim, w.a.addr).unwrap_or_else(|e| mc_core::machinery_error(&e));
+        let before_b = holdings(sim, b).unwrap_or_else(|e| mc_core::machinery_error(&e));
+        states.push(LedgerState {
+            name,
+            what,
+            snap: sim.create_snapshot(),
+            a: w.a.addr,
+            b,
+            c,
+            proofs: vec![w.a.sig.clone(), sig_b, sig_c.clone()],
+            before_a,
+            before_b,
+        });
+    };
+    // S0: B accepts everything (default rule Accept, no preferences); B already holds XRD and rc
+    mk("B-accepts-all", "B = existing account, default deposit rule Accept", &mut sim, w.b.addr, w.b.sig.clone());
+    // S1: B disallows F through a resource preference
+    {
+        let mut s = sim_from(&base);
+        must_commit(
+            &mut s,
+            ManifestBuilder::new()
+                .lock_fee_from_faucet()
+                .call_method(w.b.addr, ACCOUNT_SET_RESOURCE_PREFERENCE_IDENT, AccountSetResourcePreferenceInput { resource_address: w.f18, resource_preference: ResourcePreference::Disallowed })
+                .build(),
+            vec![w.b.sig.clone()],
+            "B disallows F",
+        );
+        mk("B-disallows-F", "B = existing account with resource preference Disallowed for F", &mut s, w.b.addr, w.b.sig.clone());
+    }
+    // S2: B is a preallocated account address that was never touched (holds nothing, not instantiated)
+    {
+        let mut s = sim_from(&base);
+        let pk = Secp256k1PrivateKey::from_u64(424_242).unwrap().public_key();
+        let b = ComponentAddress::preallocated_account_from_public_key(&pk);
+        mk("B-fresh", "B = never-instantiated preallocated account (holds nothing)", &mut s, b, NonFungibleGlobalId::from_public_key(&pk));
+    }
+    // S3: B accepts only resources it already holds (default rule AllowExisting; it holds XRD only)
+    {
+        let mut s = sim_from(&base);
+        let (pk_d, _, d) = s.new_account(true);
+        let sig_d = NonFungibleGlobalId::from_public_key(&pk_d);
+        must_commit(
+            &mut s,
+            ManifestBuilder::new()
+                .lock_fee_from_faucet()
+                .call_method(d, ACCOUNT_SET_DEFAULT_DEPOSIT_RULE_IDENT, AccountSetDefaultDepositRuleInput { default: DefaultDepositRule::AllowExisting })
+                .build(),
+            vec![sig_d.clone()],
+            "D allows existing only",
+        );
+        mk("B-allows-existing-only", "B = account holding XRD only, default deposit rule AllowExisting (rejects F and NF)", &mut s, d, sig_d);
+    }
+    Env { res, states }
+}
+
+// ------------------------------------------------------------------------------------------------
+// manifests
+// ------------------------------------------------------------------------------------------------
+
+fn empty_allowlist_constraint() -> ManifestResourceConstraint {
+    ManifestResourceConstraint::General(GeneralResourceConstraint {
+        required_ids: Default::default(),
+        lower_bound: LowerBound::Inclusive(Decimal::ZERO),
+        upper_bound: UpperBound::Unbounded,
+        allowed_ids: AllowedIds::Allowlist(Default::default()),
+    })
+}
+
+/// Build the manifest of a sequence for a ledger state. `skip` drops one kind of op (used to test whether a
+/// violation is reached through a particular assertion). None = a bucket op without a live bucket.
+pub fn build_manifest(ops: &[Op], st: &LedgerState, r: &Res, skip: Option<Op>) -> Option<TransactionManifestV2> {
+    let (a, bb) = (st.a, st.b);
+    let mut b = ManifestBuilder::new_v2().lock_fee(st.c, dec!(100));
+    let mut live: Vec<String> = vec![];
+    let mut n = 0usize;
+    let mut fresh = |live: &mut Vec<String>| {
+        let name = format!("b{n}");
+        n += 1;
+        live.push(name.clone());
+        name
+    };
+    for &op in ops {
+        if Some(op) == skip {
+            continue;
+        }
+        b = match op {
+            Op::W1 => b.withdraw_from_account(a, r.f, dec!(1)),
+            Op::W2 => b.withdraw_from_account(a, r.f, dec!(2)),
+            Op::WN1 => b.withdraw_non_fungibles_from_account(a, r.nf, [id(1)]),
+            Op::WN12 => b.withdraw_non_fungibles_from_account(a, r.nf, [id(1), id(2)]),
+            Op::TakeF1 => {
+                let name = fresh(&mut live);
+                b.take_from_worktop(r.f, dec!(1), name.as_str())
+            }
+            Op::TakeAllF => {
+                let name = fresh(&mut live);
+                b.take_all_from_worktop(r.f, name.as_str())
+            }
+            Op::TakeAllNF => {
+                let name = fresh(&mut live);
+                b.take_all_from_worktop(r.nf, name.as_str())
+            }
+            Op::TakeNF1 => {
+                let name = fresh(&mut live);
+                b.take_non_fungibles_from_worktop(r.nf, [id(1)], name.as_str())
+            }
+            Op::DepB => {
+                let name = live.pop()?;
+                b.deposit(bb, name.as_str())
+            }
+            Op::DepBatchB => b.deposit_entire_worktop(bb),
+            Op::TryAbortB => {
+                let name = live.pop()?;
+                b.try_deposit_or_abort(bb, None, name.as_str())
+            }
+            Op::TryRefundB => {
+                let name = live.pop()?;
+                b.try_deposit_or_refund(bb, None, name.as_str())
+            }
+            Op::TryRefundAllB => b.try_deposit_entire_worktop_or_refund(bb, None),
+            Op::AssertF1 => b.assert_worktop_contains(r.f, dec!(1)),
+            Op::AssertAnyF => b.assert_worktop_contains_any(r.f),
+            Op::AssertNF1 => b.assert_worktop_contains_non_fungibles(r.nf, [id(1)]),
+            Op::Burn => {
+                let name = live.pop()?;
+                b.burn_resource(name.as_str())
+            }
+            Op::Faucet => b.get_free_xrd_from_faucet(),
+            Op::Contribute => {
+                let name = live.pop()?;
+                b.call_method_with_name_lookup(r.pool, ONE_RESOURCE_POOL_CONTRIBUTE_IDENT, |l| (l.bucket(name.as_str()),))
+            }
+            Op::Redeem | Op::RedeemA => {
+                let name = format!("pu{n}");
+                n += 1;
+                let mut x = b.withdraw_from_account(a, r.pu, dec!(1)).take_all_from_worktop(r.pu, name.as_str());
+                if op == Op::RedeemA {
+                    x = x.assert_next_call_returns_only(ManifestResourceConstraints::new().with_exact_amount(r.f, dec!(1)));
+                }
+                x.call_method_with_name_lookup(r.pool, ONE_RESOURCE_POOL_REDEEM_IDENT, |l| (l.bucket(name.as_str()),))
+            }
+            Op::NextOnlyF => b.assert_next_call_returns_only(ManifestResourceConstraints::new().with_amount_range(r.f, dec!(1), dec!(2))),
+            Op::NextOnlyX => b.assert_next_call_returns_only(ManifestResourceConstraints::new().with_at_least_amount(XRD, dec!(1))),
+            Op::NextInclF => b.assert_next_call_returns_include(ManifestResourceConstraints::new().with_at_least_amount(r.f, dec!(1))),
+            Op::WtOnlyF => b.assert_worktop_resources_only(ManifestResourceConstraints::new().with_exact_amount(r.f, dec!(1))),
+            Op::WtInclF => b.assert_worktop_resources_include(ManifestResourceConstraints::new().with_amount_range(r.f, dec!(1), dec!(2))),
+            Op::WtInclNF => b.assert_worktop_resources_include(ManifestResourceConstraints::new().with_general_constraint(
+                r.nf,
+                GeneralResourceConstraint { required_ids: Default::default(), lower_bound: LowerBound::NonZero, upper_bound: UpperBound::Inclusive(dec!(2)), allowed_ids: AllowedIds::allowlist([id(1), id(2)]) },
+            )),
+            Op::BucketC => {
+                let name = live.last()?.clone();
+                b.assert_bucket_contents(
+                    name.as_str(),
+                    ManifestResourceConstraint::General(GeneralResourceConstraint {
+                        required_ids: Default::default(),
+                        lower_bound: LowerBound::Inclusive(dec!(1)),
+                        upper_bound: UpperBound::Inclusive(dec!(2)),
+                        allowed_ids: AllowedIds::Any,
+                    }),
+                )
+            }
+            Op::WtInclEmptyAllow => b.assert_worktop_resources_include(ManifestResourceConstraints::new().with_unchecked(r.f, empty_allowlist_constraint())),
+        };
+    }
+    // closing: return live buckets, deposit the entire worktop to A
+    while let Some(name) = live.pop() {
+        b = b.return_to_worktop(name.as_str());
+    }
+    b = b.deposit_entire_worktop(a);
+    Some(b.build_no_validate())
+}
+
+pub struct Claims {
+    pub withdraws: IndexMap<ComponentAddress, NetWithdraws>,
+    pub deposits: IndexMap<ComponentAddress, NetDeposits>,
+}
+
+/// The analyser, invoked the way the repository's own tests invoke it.
+pub fn analyse(m: &TransactionManifestV2) -> Result<Claims, StaticResourceMovementsError> {
+    let interpreter = StaticManifestInterpreter::new(ValidationRuleset::all(), m);
+    let mut visitor = StaticResourceMovementsVisitor::new(m.is_subintent());
+    interpreter.validate_and_apply_visitor(&mut visitor)?;
+    let output = visitor.output();
+    let (withdraws, deposits) = output.resolve_account_changes()?;
+    Ok(Claims { withdraws, deposits })
+}
+
+// ------------------------------------------------------------------------------------------------
+// actual movements of one account in one committed transaction
+// ------------------------------------------------------------------------------------------------
+
+#[derive(Clone, Debug, Default)]
+pub struct Flow {
+    pub w_amt: Decimal,
+    pub d_amt: Decimal,
+    /// multisets, in event order
+    pub w_ids: Vec<NonFungibleLocalId>,
+    pub d_ids: Vec<NonFungibleLocalId>,
+    pub w_events: u32,
+    pub d_events: u32,
+}
+
+#[derive(Clone, Debug, Default)]
+pub struct Actual {
+    pub flows: BTreeMap<ResourceAddress, Flow>,
+    pub before: Holdings,
+    pub after: Holdings,
+    pub rejected_deposit_events: u32,
+}
+
+/// Gross flows from the account's own Withdraw/Deposit events.
+fn flows_of(c: &CommitResult, acct: ComponentAddress) -> Result<(BTreeMap<ResourceAddress, Flow>, u32), String> {
+    let mut flows: BTreeMap<ResourceAddress, Flow> = BTreeMap::new();
+    let mut rejected = 0u32;
+    for (EventTypeIdentifier(emitter, name), data) in &c.application_events {
+        let Emitter::Method(node, ModuleId::Main) = emitter else { continue };
+        if node != acct.as_node_id() {
+            continue;
+        }
+        match name.as_str() {
+            "WithdrawEvent" => match scrypto_decode::<AccountWithdrawEvent>(data).map_err(|e| format!("WithdrawEvent undecodable: {e:?}"))? {
+                AccountWithdrawEvent::Fungible(ra, amt) => {
+                    let f = flows.entry(ra).or_default();
+                    f.w_amt = f.w_amt.checked_add(amt).ok_or("overflow")?;
+                    f.w_events += 1;
+                }
+                AccountWithdrawEvent::NonFungible(ra, ids) => {
+                    let f = flows.entry(ra).or_default();
+                    f.w_amt = f.w_amt.checked_add(Decimal::from(ids.len())).ok_or("overflow")?;
+                    f.w_ids.extend(ids);
+                    f.w_events += 1;
+                }
+            },
+            "DepositEvent" => match scrypto_decode::<AccountDepositEvent>(data).map_err(|e| format!("DepositEvent undecodable: {e:?}"))? {
+                AccountDepositEvent::Fungible(ra, amt) => {
+                    let f = flows.entry(ra).or_default();
+                    f.d_amt = f.d_amt.checked_add(amt).ok_or("overflow")?;
+                    f.d_events += 1;
+                }
+                AccountDepositEvent::NonFungible(ra, ids) => {
+                    let f = flows.entry(ra).or_default();
+                    f.d_amt = f.d_amt.checked_add(Decimal::from(ids.len())).ok_or("overflow")?;
+                    f.d_ids.extend(ids);
+                    f.d_events += 1;
+                }
+            },
+            "RejectedDepositEvent" => {
+                let _: AccountRejectedDepositEvent = scrypto_decode(data).map_err(|e| format!("RejectedDepositEvent undecodable: {e:?}"))?;
+                rejected += 1;
+            }
+            _ => {}
+        }
+    }
+    Ok((flows, rejected))
+}
+
+/// Events must explain the committed change of the account's vaults exactly: after - before == deposited - withdrawn,
+/// and for non-fungibles after == before - withdrawn + deposited as sets. Err = they do not (not a C38 matter).
+fn events_explain_state(a: &Actual) -> Result<(), String> {
+    let mut all: BTreeSet<ResourceAddress> = a.flows.keys().copied().collect();
+    all.extend(a.before.keys().copied());
+    all.extend(a.after.keys().copied());
+    for ra in all {
+        let zero = (Decimal::ZERO, BTreeSet::new());
+        let (b_amt, b_ids) = a.before.get(&ra).unwrap_or(&zero);
+        let (a_amt, a_ids) = a.after.get(&ra).unwrap_or(&zero);
+        let f = a.flows.get(&ra).cloned().unwrap_or_default();
+        if *b_amt + f.d_amt - f.w_amt != *a_amt {
+            return Err(format!("{ra:?}: before {b_amt} + deposited {} - withdrawn {} != after {a_amt}", f.d_amt, f.w_amt));
+        }
+        if !ra.is_fungible() {
+            // replay the id movements as a multiset count per id
+            let mut cnt: BTreeMap<NonFungibleLocalId, i64> = b_ids.iter().map(|i| (i.clone(), 1)).collect();
+            for i in &f.d_ids {
+                *cnt.entry(i.clone()).or_insert(0) += 1;
+            }
+            for i in &f.w_ids {
+                *cnt.entry(i.clone()).or_insert(0) -= 1;
+            }
+            let end: BTreeSet<NonFungibleLocalId> = cnt.iter().filter(|(_, n)| **n == 1).map(|(i, _)| i.clone()).collect();
+            if cnt.values().any(|n| *n != 0 && *n != 1) || &end != a_ids {
+                return Err(format!("{ra:?}: id movements {:?} / {:?} do not lead from {b_ids:?} to {a_ids:?}", f.w_ids, f.d_ids));
+            }
+        }
+    }
+    Ok(())
+}
+
+// ------------------------------------------------------------------------------------------------
+// the oracle
+// ------------------------------------------------------------------------------------------------
+
+#[derive(Clone, Debug)]
+pub struct Finding {
+    pub kind: String,
+    pub what: String,
+    /// true for "reported lower bound / certain id not met" (the only kinds a refund can explain)
+    pub lower_side: bool,
+}
+
+fn multiset_intersection_size(a: &[NonFungibleLocalId], b: &[NonFungibleLocalId]) -> usize {
+    let mut cb: BTreeMap<&NonFungibleLocalId, usize> = BTreeMap::new();
+    for i in b {
+        *cb.entry(i).or_insert(0) += 1;
+    }
+    let mut n = 0;
+    for i in a {
+        if let Some(c) = cb.get_mut(i) {
+            if *c > 0 {
+                *c -= 1;
+                n += 1;
+            }
+        }
+    }
+    n
+}
+
+/// One acceptable withdraw claim for one resource: None = "no entry".
+#[derive(Clone, Debug)]
+enum WClaim {
+    Absent,
+    Fungible(Decimal),
+    NonFungible { known: Vec<NonFungibleLocalId>, unknown: usize },
+}
+
+fn subsets<T: Clone>(v: &[T]) -> Vec<Vec<T>> {
+    (0..(1u32 << v.len())).map(|m| v.iter().enumerate().filter(|(i, _)| m & (1 << i) != 0).map(|(_, x)| x.clone()).collect()).collect()
+}
+
+/// Judge the claims reported for one account against what the account really did.
+pub fn judge(actual: &Actual, reported_w: Option<&NetWithdraws>, reported_d: Option<&NetDeposits>) -> Vec<Finding> {
+    let mut out = vec![];
+    let empty_ids = BTreeSet::new();
+    // ---- withdraw side: enumerate the claims consistent with the execution, per resource
+    let mut per_res: Vec<(ResourceAddress, Vec<(WClaim, usize)>)> = vec![]; // (claim, cancelled count c)
+    for (ra, f) in &actual.flows {
+        if f.w_events == 0 || f.w_amt.is_zero() {
+            continue;
+        }
+        if ra.is_fungible() {
+            per_res.push((*ra, vec![(WClaim::Fungible(f.w_amt), 0)]));
+        } else {
+            let after_ids = actual.after.get(ra).map(|x| &x.1).unwrap_or(&empty_ids);
+            let gw = f.w_ids.len();
+            let max_c = multiset_intersection_size(&f.w_ids, &f.d_ids);
+            let eligible: Vec<NonFungibleLocalId> = f.w_ids.iter().cloned().collect::<BTreeSet<_>>().into_iter().filter(|i| !after_ids.contains(i)).collect();
+            let mut v = vec![];
+            for c in 0..=max_c {
+                let total = gw - c;
+                if total == 0 {
+                    v.push((WClaim::Absent, c));
+                    continue;
+                }
+                for k in subsets(&eligible) {
+                    if k.len() <= total {
+                        let unknown = total - k.len();
+                        v.push((WClaim::NonFungible { known: k, unknown }, c));
+                    }
+                }
+            }
+            per_res.push((*ra, v));
+        }
+    }
+    // product over resources
+    let mut combos: Vec<Vec<(ResourceAddress, WClaim, usize)>> = vec![vec![]];
+    for (ra, options) in &per_res {
+        let mut next = vec![];
+        for base in &combos {
+            for (cl, c) in options {
+                let mut x = base.clone();
+                x.push((*ra, cl.clone(), *c));
+                next.push(x);
+            }
+        }
+        combos = next;
+    }
+    let mut cancelled: BTreeMap<ResourceAddress, usize> = BTreeMap::new();
+    let mut matched = false;
+    for combo in &combos {
+        let mut nw = NetWithdraws::empty();
+        let mut any = false;
+        for (ra, cl, _) in combo {
+            match cl {
+                WClaim::Absent => {}
+                WClaim::Fungible(t) => {
+                    nw = nw.set_fungible(*ra, *t);
+                    any = true;
+                }
+                WClaim::NonFungible { known, unknown } => {
+                    nw = nw.set_non_fungible(*ra, known.iter().cloned(), *unknown);
+                    any = true;
+                }
+            }
+        }
+        let candidate = if any { Some(&nw) } else { None };
+        if candidate == reported_w {
+            matched = true;
+            for (ra, _, c) in combo {
+                cancelled.insert(*ra, *c);
+            }
+            break;
+        }
+    }
+    if !matched {
+        let gross: Vec<String> = actual.flows.iter().filter(|(_, f)| f.w_events > 0).map(|(ra, f)| format!("{ra:?}: amount {} ids {:?}", f.w_amt, f.w_ids)).collect();
+        out.push(Finding {
+            kind: "withdraw-claim-inconsistent-with-execution".into(),
+            what: format!("reported net withdraws {reported_w:?} is none of the {} claims consistent with the executed withdrawals [{}]", combos.len(), gross.join("; ")),
+            lower_side: false,
+        });
+    }
+    // ---- deposit side
+    let mut resources: BTreeSet<ResourceAddress> = actual.flows.iter().filter(|(_, f)| f.d_events > 0).map(|(ra, _)| *ra).collect();
+    if let Some(nd) = reported_d {
+        resources.extend(nd.specified_resources.keys().copied());
+    }
+    for ra in resources {
+        let f = actual.flows.get(&ra).cloned().unwrap_or_default();
+        let c = if matched { cancelled.get(&ra).copied().unwrap_or(0) } else { 0 };
+        let kind_s = if ra.is_fungible() { "fungible" } else { "non-fungible" };
+        let net: Decimal = if ra.is_fungible() { f.d_amt } else { Decimal::from(f.d_ids.len() - c.min(f.d_ids.len())) };
+        let specified = reported_d.and_then(|nd| nd.specified_resources.get(&ra));
+        let Some(b) = specified else {
+            let flagged = matches!(reported_d.map(|nd| &nd.unspecified_resources), Some(UnspecifiedResources::MayBePresent(_)));
+            if net.is_positive() && !flagged {
+                out.push(Finding {
+                    kind: format!("deposit-of-unlisted-resource:{kind_s}"),
+                    what: format!("{net} of {ra:?} deposited, but the analyser lists no bound for it and does not flag unspecified resources (reported {reported_d:?})"),
+                    lower_side: false,
+                });
+            }
+            continue;
+        };
+        if !matched && !ra.is_fungible() {
+            // the number of cancelled ids is unknown when the withdraw claim is already wrong
+            continue;
+        }
+        let lower_ok = match b.lower_bound() {
+            LowerBound::NonZero => net.is_positive(),
+            LowerBound::Inclusive(x) => net >= x,
+        };
+        if !lower_ok {
+            out.push(Finding {
+                kind: format!("deposit-below-lower-bound:{kind_s}"),
+                what: format!("{net} of {ra:?} deposited (gross {} , cancelled ids {c}), reported lower bound {:?}", f.d_amt, b.lower_bound()),
+                lower_side: true,
+            });
+        }
+        let upper_ok = match b.upper_bound() {
+            UpperBound::Inclusive(x) => net <= x,
+            UpperBound::Unbounded => true,
+        };
+        if !upper_ok {
+            out.push(Finding {
+                kind: format!("deposit-above-upper-bound:{kind_s}"),
+                what: format!("{net} of {ra:?} deposited (gross {}, cancelled ids {c}), reported upper bound {:?}", f.d_amt, b.upper_bound()),
+                lower_side: false,
+            });
+        }
+        if !ra.is_fungible() {
+            let after_ids = actual.after.get(&ra).map(|x| &x.1).unwrap_or(&empty_ids);
+            let before_ids = actual.before.get(&ra).map(|x| &x.1).unwrap_or(&empty_ids);
+            for i in b.required_ids() {
+                if !f.d_ids.contains(i) || !after_ids.contains(i) {
+                    out.push(Finding {
+                        kind: "deposit-certain-id-not-received:non-fungible".into(),
+                        what: format!("id {i} of {ra:?} is reported as certainly deposited, but deposited ids are {:?} and the account holds {after_ids:?} afterwards", f.d_ids),
+                        lower_side: true,
+                    });
+                }
+            }
+            if let AllowedIds::Allowlist(allow) = b.allowed_ids() {
+                let mut must_be_allowed: BTreeSet<NonFungibleLocalId> = f.d_ids.iter().filter(|i| !f.w_ids.contains(i)).cloned().collect();
+                must_be_allowed.extend(after_ids.difference(before_ids).cloned());
+                for i in must_be_allowed {
+                    if !allow.contains(&i) {
+                        out.push(Finding {
+                            kind: "deposit-id-outside-allow-list:non-fungible".into(),
+                            what: format!("id {i} of {ra:?} was deposited (and not cancelled by a withdrawal) but the reported allow-list is {allow:?}"),
+                            lower_side: false,
+                        });
+                    }
+                }
+            }
+        }
+    }
+    out
+}
+
+// ------------------------------------------------------------------------------------------------
+// one (manifest, state) evaluation
+// ------------------------------------------------------------------------------------------------
+
+thread_local! {
+    static SIMS: std::cell::RefCell<Vec<Option<Sim>>> = std::cell::RefCell::new(vec![]);
+}
+
+pub struct Exec {
+    pub class: String,
+    /// Some for successful executions: (account label, actual, findings)
+    pub judged: Option<Vec<(&'static str, Actual, Vec<Finding>)>>,
+    pub post_fp: Option<Vec<u8>>,
+}
+
+fn execute(env: &Env, si: usize, m: TransactionManifestV2) -> Result<(TransactionReceipt, Holdings, Holdings), String> {
+    let st = &env.states[si];
+    SIMS.with(|s| {
+        let mut s = s.borrow_mut();
+        while s.len() <= si {
+            s.push(None);
+        }
+        if s[si].is_none() {
+            s[si] = Some(sim_from(&st.snap));
+        } else {
+            s[si].as_mut().unwrap().restore_snapshot(st.snap.clone());
+        }
+        let sim = s[si].as_mut().unwrap();
+        let proofs = st.proofs.clone();
+        let r = mc_core::catch(|| sim.execute_manifest(m, proofs));
+        match r {
+            Err(p) => {
+                // the simulator may be in any state: rebuild it next time
+                s[si] = None;
+                Err(p)
+            }
+            Ok(receipt) => {
+                let ha = holdings(sim, st.a)?;
+                let hb = holdings(sim, st.b)?;
+                Ok((receipt, ha, hb))
+            }
+        }
+    })
+}
+
+fn claims_json(cl: &Claims, st: &LedgerState) -> Value {
+    let name = |c: &ComponentAddress| if *c == st.a { "A".to_string() } else if *c == st.b { "B".to_string() } else { format!("{c:?}") };
+    json!({
+        "net_withdraws": cl.withdraws.iter().map(|(k, v)| (name(k), format!("{v:?}"))).collect::<BTreeMap<_, _>>(),
+        "net_deposits": cl.deposits.iter().map(|(k, v)| (name(k), format!("{v:?}"))).collect::<BTreeMap<_, _>>(),
+    })
+}
+
+fn actual_json(a: &Actual) -> Value {
+    json!({
+        "gross_flows": a.flows.iter().map(|(ra, f)| (format!("{ra:?}"), json!({"withdrawn": f.w_amt.to_string(), "deposited": f.d_amt.to_string(), "withdrawn_ids": f.w_ids.iter().map(|i| i.to_string()).collect::<Vec<_>>(), "deposited_ids": f.d_ids.iter().map(|i| i.to_string()).collect::<Vec<_>>()}))).collect::<BTreeMap<_, _>>(),
+        "before": a.before.iter().map(|(ra, (amt, ids))| (format!("{ra:?}"), json!({"amount": amt.to_string(), "ids": ids.iter().map(|i| i.to_string()).collect::<Vec<_>>()}))).collect::<BTreeMap<_, _>>(),
+        "after": a.after.iter().map(|(ra, (amt, ids))| (format!("{ra:?}"), json!({"amount": amt.to_string(), "ids": ids.iter().map(|i| i.to_string()).collect::<Vec<_>>()}))).collect::<BTreeMap<_, _>>(),
+        "rejected_deposit_events": a.rejected_deposit_events,
+    })
+}
+
+fn resource_legend(r: &Res) -> Value {
+    json!({"F": format!("{:?}", r.f), "NF": format!("{:?}", r.nf), "PU (pool unit)": format!("{:?}", r.pu), "XRD": format!("{XRD:?}")})
+}
+
+pub struct Violation {
+    pub key: String,
+    pub what: String,
+    pub case: Value,
+}
+
+pub struct Evaluated {
+    pub classes: Vec<String>,
+    pub infos: Vec<String>,
+    pub violations: Vec<Violation>,
+    pub analysed: u32,
+    pub executed: u32,
+    pub judged_ok: u32,
+    pub post_fps: Vec<Vec<u8>>,
+    pub sample: Option<Value>,
+}
+
+fn holdings_fp(a: &Holdings, b: &Holdings, st: &str) -> Vec<u8> {
+    let mut s = String::from(st);
+    for h in [a, b] {
+        for (ra, (amt, ids)) in h {
+            s.push_str(&format!("{ra:?}={amt}:{ids:?};"));
+        }
+        s.push('|');
+    }
+    mc_core::fp128(s.as_bytes())
+}
+
+/// Analyse and (if the analyser reports bounds) execute one sequence on one ledger state.
+pub fn evaluate(env: &Env, ops: &[Op], si: usize, ev: &mut Evaluated) {
+    let st = &env.states[si];
+    let r = &env.res;
+    let Some(m) = build_manifest(ops, st, r, None) else {
+        ev.classes.push("unbuildable:no-live-bucket".into());
+        return;
+    };
+    let claims = match mc_core::catch(|| analyse(&m)) {
+        Err(p) => {
+            // a panic of the analyser is outside the statement; reported as information
+            ev.infos.push(format!("analyser-panic@{}", mc_core::last_panic_location()));
+            ev.classes.push("analyser:panic".into());
+            let _ = p;
+            return;
+        }
+        Ok(Err(StaticResourceMovementsError::ManifestValidationError(e))) => {
+            ev.classes.push(format!("static-validator-rejects:{}", variant_path(&format!("{e:?}"), 1)));
+            return;
+        }
+        Ok(Err(e)) => {
+            ev.classes.push(format!("analyser-error:{}", variant_path(&format!("{e:?}"), 1)));
+            return;
+        }
+        Ok(Ok(c)) => c,
+    };
+    ev.analysed += 1;
+    let (receipt, after_a, after_b) = match execute(env, si, m) {
+        Err(p) => {
+            ev.infos.push(format!("execution-panic-or-harness-read-failure: {}", mc_core::truncate(&p, 120)));
+            ev.classes.push("exec:panic".into());
+            return;
+        }
+        Ok(x) => x,
+    };
+    ev.executed += 1;
+    if !is_success(&receipt) {
+        let c = receipt_class(&receipt);
+        ev.classes.push(format!("exec:{}", c));
+        return;
+    }
+    let TransactionResult::Commit(commit) = &receipt.result else { unreachable!() };
+    ev.post_fps.push(holdings_fp(&after_a, &after_b, st.name));
+    let mut all_ok = true;
+    let mut refund_seen = false;
+    for (label, acct, before, after) in [("A", st.a, &st.before_a, after_a), ("B", st.b, &st.before_b, after_b)] {
+        let (flows, rejected) = match flows_of(commit, acct) {
+            Ok(x) => x,
+            Err(e) => mc_core::machinery_error(&format!("C38: {e}")),
+        };
+        let actual = Actual { flows, before: before.clone(), after, rejected_deposit_events: rejected };
+        if rejected > 0 {
+            refund_seen = true;
+        }
+        if let Err(e) = events_explain_state(&actual) {
+            // the account's events do not explain its committed vault changes: not what C38 is about; skip the account
+            ev.infos.push("account-events-do-not-explain-vault-changes (account skipped)".into());
+            ev.infos.push(mc_core::truncate(&format!("events-vs-state: {e}"), 160));
+            all_ok = false;
+            continue;
+        }
+        let findings = judge(&actual, claims.withdraws.get(&acct), claims.deposits.get(&acct));
+        for f in findings {
+            all_ok = false;
+            // ---- route classification (only ever adds a prefix; never drops a finding)
+            let mut key = format!("{label}:{}", f.kind);
+            // (1) refund: the account rejected a deposit in this execution, the manifest sends resources to it with an
+            //     *_or_refund call, and what is violated is a lower bound / certain id of the deposit claim
+            if label == "B" && f.lower_side && rejected > 0 && ops.iter().any(|o| o.is_refundable_deposit_to_b()) {
+                key = format!("refundable-deposit-reported-as-certain:{key}");
+            }
+            // (2) the known C37 route: the finding disappears when the empty-allow-list assertion is removed from the
+            //     manifest (the assertion passed at run time, so the execution - hence `actual` - is the same without it)
+            if ops.contains(&Op::WtInclEmptyAllow) {
+                if let Some(m2) = build_manifest(ops, st, r, Some(Op::WtInclEmptyAllow)) {
+                    if let Ok(Ok(c2)) = mc_core::catch(|| analyse(&m2)) {
+                        let again = judge(&actual, c2.withdraws.get(&acct), c2.deposits.get(&acct));
+                        if !again.iter().any(|g| g.kind == f.kind) {
+                            key = format!("via-C37-normalize-empty-allowlist:{key}");
+                        }
+                    }
+                }
+            }
+            ev.violations.push(Violation {
+                key,
+                what: format!("[{}] manifest {:?} + deposit_entire_worktop(A): account {label}: {}", st.name, ops, f.what),
+                case: json!({
+                    "ops": ops.iter().map(|o| format!("{o:?}")).collect::<Vec<_>>(),
+                    "closing": "RETURN_TO_WORKTOP for every live bucket; A.deposit_batch(ENTIRE_WORKTOP)",
+                    "fee": "lock_fee(C, 100) as first instruction (C is a third account, never compared)",
+                    "state": st.name,
+                    "state_description": st.what,
+                    "account": label,
+                    "reported": claims_json(&claims, st),
+                    "actual": actual_json(&actual),
+                    "resources": resource_legend(r),
+                    "finding": f.kind,
+                }),
+            });
+        }
+    }
+    let cls = if all_ok {
+        ev.judged_ok += 1;
+        if refund_seen {
+            "exec:success:bounds-hold(refund-happened)"
+        } else {
+            "exec:success:bounds-hold"
+        }
+    } else {
+        "exec:success:BOUNDS-VIOLATED-or-skipped"
+    };
+    ev.classes.push(cls.into());
+    if ev.sample.is_none() {
+        ev.sample = Some(json!({"ops": ops.iter().map(|o| format!("{o:?}")).collect::<Vec<_>>(), "state": st.name, "reported": claims_json(&claims, st), "outcome": cls}));
+    }
+}
+
+// ------------------------------------------------------------------------------------------------
+// driver
+// ------------------------------------------------------------------------------------------------
+
+fn replay(ctx: Ctx, env: &Env) -> ! {
+    let case = ctx.read_replay_case().unwrap();
+    let ops: Vec<Op> = case["ops"].as_array().map(|a| a.iter().filter_map(|x| x.as_str().and_then(Op::parse)).collect()).unwrap_or_default();
+    let sname = case["state"].as_str().unwrap_or("");
+    let Some(si) = env.states.iter().position(|s| s.name == sname) else { mc_core::machinery_error("replay: unknown state") };
+    let mut ev = Evaluated { classes: vec![], infos: vec![], violations: vec![], analysed: 0, executed: 0, judged_ok: 0, post_fps: vec![], sample: None };
+    evaluate(env, &ops, si, &mut ev);
+    println!("replay: ops {ops:?} on state {sname}: classes {:?}", ev.classes);
+    if let Some(m) = build_manifest(&ops, &env.states[si], &env.res, None) {
+        match analyse(&m) {
+            Ok(c) => println!("reported: {}", serde_json::to_string_pretty(&claims_json(&c, &env.states[si])).unwrap()),
+            Err(e) => println!("analyser error: {e:?}"),
+        }
+    }
+    for v in &ev.violations {
+        println!("observed: {}", serde_json::to_string_pretty(&v.case["actual"]).unwrap());
+        ctx.violation(v.key.clone(), v.what.clone(), v.case.clone());
+    }
+    ctx.class("replayed", 1);
+    ctx.finish(Level::ModelChecking, "replay of one (manifest, state) case", 1, false, Map::new(), &[])
+}
+
+pub fn run(ctx: Ctx) -> ! {
+    let env = build_env();
+    if ctx.replay.is_some() {
+        replay(ctx, &env);
+    }
+    // ---- the program space
+    // quick:    all sequences of length <= 3 over FULL, length 4 over CORE
+    // thorough: all sequences of length <= 4 over FULL, length 5 over CORE
+    let (full_len, core_len) = ctx.pick((3usize, 4usize), (4usize, 5usize));
+    let mut items: Vec<Vec<Op>> = vec![];
+    let mut unbuildable = 0u64;
+    for n in 0..=full_len {
+        gen_exact(FULL, n, &mut items, &mut unbuildable);
+    }
+    let n_full = items.len();
+    {
+        let mut deep = vec![];
+        gen_exact(CORE, core_len, &mut deep, &mut unbuildable);
+        items.extend(deep);
+    }
+    let n_states = env.states.len();
+    let wall_cap_s: f64 = ctx.pick(50.0, 1150.0);
+
+    // violations: keep, per key, the case with the smallest (sequence index, state index) so that the reported
+    // reproducer is the shortest / simplest one and the same in every run
+    let best: Mutex<BTreeMap<String, ((usize, usize), u64, Violation)>> = Mutex::new(BTreeMap::new());
+    let fps: Mutex<HashSet<Vec<u8>>> = Mutex::new(HashSet::new());
+    let analysed = AtomicU64::new(0);
+    let executed = AtomicU64::new(0);
+    let judged_ok = AtomicU64::new(0);
+    let programs_with_success = AtomicU64::new(0);
+    let done_items = AtomicU64::new(0);
+    let capped = std::sync::atomic::AtomicBool::new(false);
+
+    let block = 16u64;
+    par_range(&ctx, items.len() as u64, block, |i, l: &mut Local| {
+        if ctx.elapsed_s() > wall_cap_s {
+            capped.store(true, Ordering::Relaxed);
+            return;
+        }
+        let ops = &items[i as usize];
+        let mut any_success = false;
+        for si in 0..n_states {
+            let mut ev = Evaluated { classes: vec![], infos: vec![], violations: vec![], analysed: 0, executed: 0, judged_ok: 0, post_fps: vec![], sample: None };
+            evaluate(&env, ops, si, &mut ev);
+            l.eval();
+            for c in &ev.classes {
+                l.class(c);
+            }
+            for c in &ev.infos {
+                l.info(c);
+            }
+            analysed.fetch_add(ev.analysed as u64, Ordering::Relaxed);
+            executed.fetch_add(ev.executed as u64, Ordering::Relaxed);
+            judged_ok.fetch_add(ev.judged_ok as u64, Ordering::Relaxed);
+            if !ev.post_fps.is_empty() {
+                any_success = true;
+                fps.lock().unwrap().extend(ev.post_fps.drain(..));
+            }
+            if let Some(s) = ev.sample.take() {
+                l.sample(|| s);
+            }
+            if !ev.violations.is_empty() {
+                let mut b = best.lock().unwrap();
+                for v in ev.violations {
+                    let pos = (i as usize, si);
+                    match b.get_mut(&v.key) {
+                        Some(e) => {
+                            e.1 += 1;
+                            if pos < e.0 {
+                                e.0 = pos;
+                                e.2 = v;
+                            }
+                        }
+                        None => {
+                            b.insert(v.key.clone(), (pos, 1, v));
+                        }
+                    }
+                }
+            }
+        }
+        if any_success {
+            programs_with_success.fetch_add(1, Ordering::Relaxed);
+        }
+        done_items.fetch_add(1, Ordering::Relaxed);
+    });
+
+    let capped = capped.load(Ordering::Relaxed);
+    for (key, (pos, n, v)) in best.into_inner().unwrap() {
+        let mut case = v.case;
+        case["instances_of_this_key_in_this_run"] = json!(n);
+        case["sequence_index"] = json!(pos.0);
+        ctx.violation(key, format!("{} ({} instance(s) of this key in this run)", v.what, n), case);
+    }
+    ctx.info("sequences-not-expressible (bucket operation without a live bucket; never built)", unbuildable);
+
+    let post_states = fps.into_inner().unwrap().len() as u64;
+    let executed = executed.load(Ordering::Relaxed);
+    let mut cov = Map::new();
+    cov.insert("states".into(), json!(n_states as u64 + post_states));
+    cov.insert("ledger_states".into(), json!(env.states.iter().map(|s| json!({"name": s.name, "what": s.what})).collect::<Vec<_>>()));
+    cov.insert("distinct_post_states".into(), json!(post_states));
+    cov.insert("transitions".into(), json!(executed));
+    cov.insert("traces_validated_against_impl".into(), json!(judged_ok.load(Ordering::Relaxed)));
+    cov.insert("programs".into(), json!(items.len() as u64));
+    cov.insert("programs_full_alphabet".into(), json!(n_full as u64));
+    cov.insert("program_state_pairs_analysed_with_bounds".into(), json!(analysed.load(Ordering::Relaxed)));
+    cov.insert("programs_with_a_successful_execution".into(), json!(programs_with_success.load(Ordering::Relaxed)));
+    cov.insert("programs_completed".into(), json!(done_items.load(Ordering::Relaxed)));
+    cov.insert("alphabet_full".into(), json!(FULL.iter().map(|o| format!("{o:?}")).collect::<Vec<_>>()));
+    cov.insert("alphabet_core".into(), json!(CORE.iter().map(|o| format!("{o:?}")).collect::<Vec<_>>()));
+    cov.insert("bounds".into(), json!(format!("length <= {full_len} over the full alphabet ({}), length {core_len} over the core alphabet ({}), x {n_states} ledger states", FULL.len(), CORE.len())));
+    cov.insert("caps_hit".into(), json!(capped));
+    let rule = "a case is one (instruction sequence, ledger state) pair; sequences are enumerated exhaustively by length over the alphabet \
+(bucket operations refer to the newest live bucket; sequences using a bucket that does not exist are not expressible and are not counted). \
+Non-trivial = the analyser returned bounds AND the real engine committed the manifest successfully AND every reported bound was compared with \
+the account's real movements (distinct_nontrivial counts these pairs)";
+    let nontrivial = judged_ok.load(Ordering::Relaxed);
+    ctx.finish(
+        Level::ModelChecking,
+        rule,
+        nontrivial,
+        !capped,
+        cov,
+        &[
+            "gross per-account flows are taken from the account blueprint's own Withdraw/Deposit events and are required to explain the committed before/after vault contents exactly (otherwise the account is skipped and counted)",
+            "fees are locked from a third account C, which is never compared",
+            "amount alphabet {1,2}, id alphabet {#1,#2}; one fungible, one non-fungible, XRD and one pool-unit resource",
+            "the ledger simulator executes V2 test transactions with the given initial proofs (no signature validation)",
+        ],
+    )
 }
